@@ -194,6 +194,17 @@ def native_parse(logic, text):
     return 'formula', sorted(mods)
 
 
+# contents tried for the escaped-string lexeme when a witness is replayed (the automaton sees one terminal; the real lexer and
+# the transformer see the characters): plain, with a space, escapes of every kind incl. malformed \\x \\u \\N, a quote, a backslash
+QUOTED = ['"s"', '"a b"', '"\\""', '"\\\\"', '"\\q"', '"\\x"', '"\\u12"', '"\\N{x}"', '"\\x41"', '"or"', '""']
+
+
+def variants(text):
+    if '"s"' not in text:
+        return [text]
+    return [text.replace('"s"', q) for q in QUOTED]
+
+
 def lalr_task(logic, L, nwit=30):
     mod = importlib.import_module('pyModelChecking.' + logic)
     see.reset()
@@ -225,13 +236,19 @@ def lalr_task(logic, L, nwit=30):
                 break
             vals = smt.values()
             toks = lexeme_string(vals, lexemes, L)
-            text = ' '.join(toks)
-            out, det = native_parse(logic, text)
-            if want_acc:
-                ok = out == 'formula' and det == [lang_mod]
-            else:
-                ok = (out == 'error' and det[2]) or text == ''
-                if text == '':
+            text0 = ' '.join(toks)
+            ok = True
+            for text in variants(text0):
+                out, det = native_parse(logic, text)
+                if want_acc:
+                    ok1 = out == 'formula' and det == [lang_mod]
+                else:
+                    ok1 = (out == 'error' and det[2]) or text == ''
+                if not ok1:
+                    ok = False
+                    break
+            if True:
+                if (not want_acc) and text == '':
                     try:
                         mod.Parser()(text)
                         ok = False
